@@ -280,6 +280,8 @@ func slice(fr *frame, x, lo, hi, max value) value {
 	case symstr:
 		Len = len(x.b)
 		Cap = Len
+	case opaqueStr:
+		opaqueAbort(x)
 	case []value:
 		Len = len(x)
 		Cap = cap(x)
@@ -365,13 +367,13 @@ func lookup(fr *frame, instr *ssa.Lookup, x, idx value) value {
 // dynamic type.
 func binop(fr *frame, op token.Token, t types.Type, x, y value) value {
 	switch x.(type) {
-	case sym, symstr:
+	case sym, symstr, opaqueStr:
 		if op != token.EQL && op != token.NEQ || isScalar(y) || isStr(y) {
 			return symBinop(fr, op, x, y)
 		}
 	}
 	switch y.(type) {
-	case sym, symstr:
+	case sym, symstr, opaqueStr:
 		if op != token.EQL && op != token.NEQ || isScalar(x) || isStr(x) {
 			return symBinop(fr, op, x, y)
 		}
@@ -1146,6 +1148,9 @@ func callBuiltin(caller *frame, callpos token.Pos, fn *ssa.Builtin, args []value
 			return len(x)
 		case symstr:
 			return len(x.b)
+		case opaqueStr:
+			opaqueAbort(x)
+			return 0
 		case array:
 			return len(x)
 		case *value:
@@ -1374,6 +1379,8 @@ func rangeIter(fr *frame, x value, t types.Type) iter {
 			w = fr.i.w
 		}
 		return newMapIter(w, x)
+	case opaqueStr:
+		opaqueAbort(x)
 	case string, symstr:
 		return &stringIter{s: x}
 	}
@@ -1438,6 +1445,12 @@ func conv(fr *frame, t_dst, t_src types.Type, x value) value {
 			w.unsupported("string(rune) of a non-ASCII symbolic code point")
 		}
 		fr.i.w.unsupported(fmt.Sprintf("conversion of symbolic %s to %s", t_src, t_dst))
+	}
+	if o, ok := x.(opaqueStr); ok {
+		if _, isBasic := ut_dst.(*types.Basic); isBasic {
+			return o
+		}
+		opaqueAbort(o)
 	}
 	if ss, ok := x.(symstr); ok {
 		switch ut_dst := ut_dst.(type) {
